@@ -6,6 +6,7 @@ package main
 // vertices / transactions, further proposals that spend checkpointed funds, a second truncation.
 
 import (
+	"context"
 	"strings"
 	"fmt"
 	"math/big"
@@ -365,6 +366,102 @@ func truncScenario(c *Ctx, sh truncShape) {
 	_ = side
 }
 
+
+// truncSpecial: two truncation histories outside the ordinary shapes.
+//   huge-turnover: amounts near 2^64 pass through several wallets below the cut (every single amount and
+//     every balance is representable; the SUM of what the wallets spent is not)
+//   interrupted: a truncation is cut short by its context after it archived a few vertices; a later
+//     truncation runs to the end. Balances are the same before and after, whatever the second one does.
+func truncSpecial(c *Ctx) {
+	{
+		w := NewWorld(c)
+		a := w.NewNode()
+		for i := 0; i < 4; i++ {
+			w.NewWallet()
+		}
+		info := map[string]interface{}{"section": "trunc", "shape": "huge-turnover"}
+		c.Mark(info)
+		if _, err := w.Genesis(a, w.wallets[0].Address(), spice.Melange{Currency: 1<<64 - 1}); err == nil {
+			w.quiet = true
+			for i, st := range []struct {
+				from, to int
+				amt      uint64
+			}{{0, 1, 1<<63 + 5}, {1, 2, 1 << 63}, {2, 3, 1<<63 - 7}, {0, 3, 1 << 61}} {
+				t := w.NewTrx(w.wallets[st.from], w.wallets[st.to].Address(), spice.Melange{Currency: st.amt, SupplementaryCurrency: uint64(i)}, nil)
+				w.Propose(a, &t)
+			}
+			for i := 0; i < 1060; i++ {
+				t := w.NewTrx(w.wallets[3], w.wallets[0].Address(), spice.Melange{}, []byte{byte(i), byte(i >> 8)})
+				w.Propose(a, &t)
+			}
+			w.quiet = false
+			w.Seed(a)
+			before := w.balancesOf(a)
+			pre := a.ab.VerifSnapshot()
+			if err := w.Truncate(a); err != nil {
+				c.Violate("C07", "truncate-fails", "truncate on shape huge-turnover: "+err.Error(), info)
+			} else {
+				post := a.ab.VerifSnapshot()
+				moved := map[[32]byte]accountant.Vertex{}
+				for _, v := range post.CpVertices {
+					moved[v.Hash] = v
+				}
+				w.checkpointOracle(&pre, &post, moved, info)
+				after := w.balancesOf(a)
+				for addr, bv := range before {
+					if after[addr] != bv && addr != pre.Genesis {
+						c.Violate("C07", "balance-changed-by-truncation", fmt.Sprintf("shape huge-turnover: balance of %s was %s before and %s after truncation", w.A(addr), bv, after[addr]), info)
+					}
+				}
+				c.Rep.Extra["moved.huge-turnover"] = len(moved)
+			}
+			w.Conservation(a, nil)
+		}
+		c.Distinct("trunc-huge-turnover")
+		w.Close()
+	}
+	{
+		w := NewWorld(c)
+		a := w.NewNode()
+		for i := 0; i < 3; i++ {
+			w.NewWallet()
+		}
+		info := map[string]interface{}{"section": "trunc", "shape": "interrupted"}
+		c.Mark(info)
+		if _, err := w.Genesis(a, w.wallets[0].Address(), spice.Melange{Currency: 100000}); err == nil {
+			w.quiet = true
+			for i := 0; i < 1060; i++ {
+				t := w.NewTrx(w.wallets[i%2], w.wallets[(i+1)%2].Address(), spice.Melange{Currency: 1}, nil)
+				if i < 3 {
+					t = w.NewTrx(w.wallets[0], w.wallets[1].Address(), spice.Melange{Currency: 500}, nil)
+				}
+				w.Propose(a, &t)
+			}
+			w.quiet = false
+			w.Seed(a)
+			before := w.balancesOf(a)
+			// cut short after some vertices were archived (the walk polls the context once per vertex)
+			cc := newCountCtx(1000+15, false)
+			err1 := a.ab.VerifTruncate(cc)
+			mid := a.ab.VerifSnapshot()
+			c.Count("trunc.interrupted.first." + errTag(err1))
+			c.Rep.Extra["interrupted.archived"] = len(mid.CpVertices)
+			err2 := a.ab.VerifTruncate(context.Background())
+			c.Count("trunc.interrupted.second." + errTag(err2))
+			w.Seed(a) // neither call is replayed on the model (it has no interrupted truncation): re-seed, then judge
+			after := w.balancesOf(a)
+			for addr, bv := range before {
+				if after[addr] != bv && addr != mid.Genesis {
+					c.Violate("C07", "balance-changed-by-interrupted-truncation", fmt.Sprintf("balance of %s was %s before and %s after an interrupted truncation (%d vertices archived, %v) followed by a complete one (%v)", w.A(addr), bv, after[addr], len(mid.CpVertices), err1, err2), info)
+					c.Violate("C06", "balance-changed-by-interrupted-truncation", fmt.Sprintf("balance of %s was %s before and %s after an interrupted truncation followed by a complete one", w.A(addr), bv, after[addr]), info)
+				}
+			}
+		}
+		c.Distinct("trunc-interrupted")
+		w.Close()
+	}
+}
+
 func vertexEqual(a, b *accountant.Vertex) bool {
 	if !a.CreatedAt.Equal(b.CreatedAt) || !a.Transaction.CreatedAt.Equal(b.Transaction.CreatedAt) {
 		return false
@@ -453,6 +550,7 @@ func init() {
 		for _, sh := range shapes {
 			truncScenario(c, sh)
 		}
+		truncSpecial(c)
 		c.Sample(map[string]interface{}{"shape": "chain", "build": 1150, "then": "SEED; BAL*; TRUNC; BAL*; READV/READT; ADD/PROP of checkpointed; 24 PROP; BAL*"})
 		return nil
 	}
